@@ -40,7 +40,19 @@ type zvConn struct {
 	// stallWrites models a full send buffer: Write blocks (a visible, blocking scheduler operation) until the
 	// harness clears the flag or the connection is closed
 	stallWrites bool
+	// writePoint makes every Write a (never blocking) scheduler operation: other threads may run between the caller's
+	// previous synchronisation operation and the moment the bytes are on the wire
+	writePoint bool
 }
+
+// zvConnWritePoint is the always-enabled operation of a connection with writePoint set.
+type zvConnWritePoint struct{}
+
+//go:norace
+func (zvConnWritePoint) OpEnabled(int) bool { return true }
+
+//go:norace
+func (zvConnWritePoint) OpApply(int) {}
 
 // zvConnWriter is the blocking-write operation of a stalled connection.
 type zvConnWriter struct{ c *zvConn }
@@ -92,6 +104,8 @@ func (c *zvConn) OpApply(int) {}
 func (c *zvConn) Write(p []byte) (int, error) {
 	if c.stalled() {
 		vsched.DoObj(vsched.KIO, fmt.Sprintf("conn%d.Write(stalled)", c.id), zvConnWriter{c})
+	} else if c.writePoint {
+		vsched.DoObj(vsched.KIO, fmt.Sprintf("conn%d.Write", c.id), zvConnWritePoint{})
 	}
 	c.mu.Lock()
 	defer c.mu.Unlock()
